@@ -203,12 +203,15 @@ func continueAfterRecovery(dir string, cfg Config, u *Universe, oo ObsOpts, reco
 	}
 	defer func() { h.Close() }()
 	const bucket, key = "post", "k"
-	n := 1
+	n := 1 + (cp.Pos*13+cp.Torn+1)%90 // many alignments of the new record's end relative to what the crash left behind
 	switch variant {
 	case 1:
 		n = int(cfg.Seg) * 6 / 10
 	case 2:
 		n = int(cfg.Seg) - 42 - len(bucket) - len(key)
+	}
+	if fit := int(cfg.Seg) - 42 - len(bucket) - len(key); n > fit {
+		n = fit // never larger than one segment can hold
 	}
 	val := strings.Repeat("p", n)
 	tr := h.RunTx(Step{K: "tx", Ops: []Op{{K: "put", B: bucket, Key: key, V: S(val)}}}, true, nil)
